@@ -38,6 +38,8 @@ struct Reply {
     ready_at: u64,
     tx: u16,
     pdu: Vec<u8>,
+    /// the request frame (unit, PDU) this reply was written in answer to
+    answers: (u8, Vec<u8>),
 }
 
 struct Fault {
@@ -245,20 +247,20 @@ pub fn run_client_racy(cfg: &ScenCfg, out: &mut RunOut) {
                                 } else {
                                     conns[ci].peer.write_delayed_at(&f, d)
                                 };
-                                replies.push(Reply { conn: ci, ready_at: at, tx, pdu: r });
+                                replies.push(Reply { conn: ci, ready_at: at, tx, pdu: r, answers: (unit, pdu_req.clone()) });
                             }
                             1 => {
                                 let e = pick_exc_code();
                                 let r = vec![req.fc() | 0x80, e];
                                 let at = conns[ci].peer.write_delayed_at(&mbap_frame(tx, unit, &r), 0);
-                                replies.push(Reply { conn: ci, ready_at: at, tx, pdu: r });
+                                replies.push(Reply { conn: ci, ready_at: at, tx, pdu: r, answers: (unit, pdu_req.clone()) });
                             }
                             2 => {
                                 if chance(1, 3) {
                                     // a reply from the mutation grammar (may be bad, may be fine)
                                     let r = super::client::gen_reply_pdu(&req);
                                     let at = conns[ci].peer.write_delayed_at(&mbap_frame(tx, unit, &r), 0);
-                                    replies.push(Reply { conn: ci, ready_at: at, tx, pdu: r });
+                                    replies.push(Reply { conn: ci, ready_at: at, tx, pdu: r, answers: (unit, pdu_req.clone()) });
                                     out.probe("racy_variant_reply");
                                 }
                                 // else silence: the request will time out
@@ -269,7 +271,7 @@ pub fn run_client_racy(cfg: &ScenCfg, out: &mut RunOut) {
                                 conns[ci].peer.write(&stale);
                                 let r = super::client::correct_reply(&req);
                                 let at = conns[ci].peer.write_delayed_at(&mbap_frame(tx, unit, &r), 1000);
-                                replies.push(Reply { conn: ci, ready_at: at, tx, pdu: r });
+                                replies.push(Reply { conn: ci, ready_at: at, tx, pdu: r, answers: (unit, pdu_req.clone()) });
                                 out.probe("stale_then_reply");
                             }
                             4 => {
@@ -414,9 +416,13 @@ pub fn run_client_racy(cfg: &ScenCfg, out: &mut RunOut) {
                         return;
                     }
                 };
+                // (requests are unique per run, so "the peer's answer to this request" is well defined
+                // even if the library were to reuse a transaction id)
                 let justified = replies.iter().any(|r| {
                     r.conn == f.conn
                         && r.tx == f.tx
+                        && r.answers.0 == s.unit
+                        && r.answers.1 == want_pdu
                         && r.ready_at <= t_done
                         && match pdu::decode_reply(&s.req, &r.pdu) {
                             pdu::ReplyClass::Ok(d) => outcome == Outcome::Ok(d),
@@ -425,7 +431,7 @@ pub fn run_client_racy(cfg: &ScenCfg, out: &mut RunOut) {
                         }
                 });
                 if !justified {
-                    let d = format!("request {} completed with {:?} at {} but no reply carrying its transaction id {} with that content had been delivered on its connection", id, outcome, t_done, f.tx);
+                    let d = format!("request {} completed with {:?} at {} but no reply to it carrying its transaction id {} with that content had been delivered on its connection", id, outcome, t_done, f.tx);
                     out.violate("C11", "racy/unjustified_result", d.clone());
                     out.violate("C10", "racy/unjustified_result", d.clone());
                     out.violate("C04", "racy/unjustified_result", d);
@@ -452,7 +458,7 @@ pub fn run_client_racy(cfg: &ScenCfg, out: &mut RunOut) {
                     return;
                 }
                 // no valid matching reply was readable strictly before the deadline
-                let early = replies.iter().find(|r| r.conn == f.conn && r.tx == f.tx && served_at(r.ready_at) < t_done && !matches!(pdu::decode_reply(&s.req, &r.pdu), pdu::ReplyClass::Bad));
+                let early = replies.iter().find(|r| r.conn == f.conn && r.tx == f.tx && r.answers.0 == s.unit && r.answers.1 == want_pdu && served_at(r.ready_at) < t_done && !matches!(pdu::decode_reply(&s.req, &r.pdu), pdu::ReplyClass::Bad));
                 if let Some(r) = early {
                     // unless the connection died before it could be read
                     let died = faults.iter().any(|x| x.conn == f.conn && x.t <= t_done);
